@@ -216,9 +216,10 @@ EGLPNUM_TYPENAME_QSLIB_INTERFACE int EGLPNUM_TYPENAME_QSopt_primal (
 	rval = check_qsdata_pointer (p);
 	CHECKRVALG (rval, CLEANUP);
 
-	/* If both the basis and the cache exist, then skip the optimization */
+	/* If both the basis and the cache exist and no basis has been loaded since
+	 * (factorok, as in QSopt_dual), then skip the optimization */
 
-	if (!p->basis || !p->cache)
+	if (!p->basis || !p->cache || !p->factorok)
 	{
 		rval = opt_work (p, status, 0);
 		CHECKRVALG (rval, CLEANUP);
